@@ -196,59 +196,49 @@ pub fn verify_trace(rec: &CallRec, toks: &mut Toks, arith: bool, out: &mut Vec<V
     let ndec_fail = rec.group.iter().filter(|g| matches!(g, GEv::Decompress { ok: false, .. })).count();
     if mixed.len() == 1 && arith {
         let ev = mixed[0];
-        let dyn_c: Vec<[u8; 32]> = ev.dyn_p.iter().map(|p| p.compress().0).collect();
-        let mut used = vec![false; dyn_c.len()];
-        let mut ambiguous = false;
-        let mut claimed: HashMap<[u8; 32], usize> = HashMap::new();
-        let mut find = |c: &[u8; 32], used: &mut Vec<bool>| -> Scalar {
-            let n = claimed.entry(*c).or_insert(0);
-            *n += 1;
-            if *n > 1 {
-                ambiguous = true;
+        // observed scalar per distinct dynamic point (summing over equal points; the identity contributes nothing)
+        let mut obs: Vec<([u8; 32], Scalar)> = vec![];
+        for (p, sc) in ev.dyn_p.iter().zip(ev.dyn_s.iter()) {
+            if p.is_zero() {
+                continue;
             }
-            let mut s = Scalar::ZERO;
-            for (i, q) in dyn_c.iter().enumerate() {
-                if q == c {
-                    s += ev.dyn_s[i];
-                    used[i] = true;
-                }
+            let c = p.compress().0;
+            match obs.iter_mut().find(|(k, _)| *k == c) {
+                Some(e) => e.1 += sc,
+                None => obs.push((c, *sc)),
             }
-            s
-        };
-        let mut per = vec![];
-        for (pp, commits, _, _) in &parts {
-            let o_a = find(&pp.a(), &mut used);
-            let o_a1 = find(&pp.a1(), &mut used);
-            let o_b = find(&pp.b(), &mut used);
-            let o_l: Vec<Scalar> = (0..pp.k).map(|j| find(&pp.l(j), &mut used)).collect();
-            let o_r: Vec<Scalar> = (0..pp.k).map(|j| find(&pp.r(j), &mut used)).collect();
-            let o_v: Vec<Scalar> = commits.iter().map(|c| find(c, &mut used)).collect();
-            per.push(json!({"oA": sl(&o_a), "oA1": sl(&o_a1), "oB": sl(&o_b), "oL": o_l.iter().map(sl).collect::<Vec<_>>(),
-                "oR": o_r.iter().map(sl).collect::<Vec<_>>(), "oV": o_v.iter().map(sl).collect::<Vec<_>>()}));
         }
-        let (_, _, gs, h) = &parts[0];
-        let o_h = find(h, &mut used);
-        let o_g: Vec<Scalar> = gs.iter().map(|g| find(g, &mut used)).collect();
-        // entries that match no role: harmless only if the scalar is zero or the point is the identity
-        let extras = (0..dyn_c.len()).filter(|i| !used[*i] && ev.dyn_s[*i] != Scalar::ZERO && !ev.dyn_p[*i].is_zero()).count();
-        // claimed inverses (checked by TLC with one multiplication each)
-        let roles = refgens::fm_roles(64, 64);
+        // the weight of member i is read off the scalar on B_i: that needs B_i to be in no other role
+        let mut all: Vec<[u8; 32]> = vec![];
+        for (pp, commits, _, _) in &parts {
+            all.extend([pp.a(), pp.a1(), pp.b()]);
+            all.extend((0..pp.k).map(|j| pp.l(j)));
+            all.extend((0..pp.k).map(|j| pp.r(j)));
+            all.extend(commits.iter().cloned());
+        }
+        if let Some((_, _, gs, h)) = parts.first() {
+            all.push(*h);
+            all.extend(gs.iter().cloned());
+        }
+        let ambiguous = parts.iter().any(|(pp, _, _, _)| all.iter().filter(|x| **x == pp.b()).count() > 1);
+        let maxcap = members.iter().map(|mb| mb["cap"].as_u64().unwrap_or(1)).max().unwrap_or(1).max(64) as u32;
+        let roles = refgens::fm_roles(maxcap, 64);
         let stat: Vec<Value> = ev.table.iter().zip(ev.stat.iter()).map(|(p, s)| {
             let r = table_role(p, &roles);
             json!([r[0], r[1], r[2], sl(s)])
         }).collect();
         if !ambiguous {
             out.push(json!({"ev": "VMSM", "nstat": ev.stat.len(), "ntable": ev.table.len(), "ndyn_s": ev.dyn_s.len(), "ndyn_p": ev.dyn_p.len(),
-                "stat": stat, "per": per, "oH": sl(&o_h), "oG": o_g.iter().map(sl).collect::<Vec<_>>(), "extras": extras,
+                "stat": stat, "obs": obs.iter().map(|(c, sc)| json!([toks.tok(c), sl(sc)])).collect::<Vec<_>>(), "arith": true,
                 "out_zero": ev.out.is_zero()}));
         } else {
-            out.push(json!({"ev": "VSkip", "why": "a point occurs in more than one role"}));
+            out.push(json!({"ev": "VSkip", "why": "the B point of a member occurs in another role (identical proofs in one batch)"}));
         }
     } else if mixed.len() == 1 {
         // token mode: only the verdict-relevant part of the final check
         let ev = mixed[0];
         out.push(json!({"ev": "VMSM", "nstat": ev.stat.len(), "ntable": ev.table.len(), "ndyn_s": ev.dyn_s.len(), "ndyn_p": ev.dyn_p.len(),
-            "stat": [], "per": [], "oH": [], "oG": [], "extras": 0, "out_zero": ev.out.is_zero()}));
+            "stat": [], "obs": [], "arith": false, "out_zero": ev.out.is_zero()}));
     } else {
         out.push(json!({"ev": "VNoMSM", "count": mixed.len(), "decompress_failures": ndec_fail}));
     }
@@ -359,7 +349,7 @@ pub fn prove_trace(rec: &CallRec, inp: &ProverInputs, toks: &mut Toks, arith: bo
     let bytes: Vec<u8> = info["bytes"].as_array().unwrap().iter().map(|x| x.as_u64().unwrap() as u8).collect();
     let pp = parse_proof(&bytes);
     let nm = inp.n * inp.m;
-    let roles = refgens::fm_roles(64, 64);
+    let roles = refgens::fm_roles((inp.cap as u32).max(64), 64);
     let pt = |b: [u8; 32]| -> FP { fm::CFP::from_fixed_bytes(b).decompress().expect("prover output decodes") };
     // the serialised witness exactly as the protocol defines it: v_j LE64 || r_j,k
     let mut wbytes = vec![];
